@@ -31,6 +31,16 @@ func u64LE(b []byte) uint64 {
 		uint64(b[4])<<32 | uint64(b[5])<<40 | uint64(b[6])<<48 | uint64(b[7])<<56
 }
 
+// unexpectedEOF converts an io.EOF from the underlying ReadSeeker (the RAC
+// file is shorter than its CompressedSize or than its index nodes say) to
+// io.ErrUnexpectedEOF. NextChunk reserves io.EOF to mean "no more chunks".
+func unexpectedEOF(err error) error {
+	if err == io.EOF {
+		return io.ErrUnexpectedEOF
+	}
+	return err
+}
+
 // Range is the half-open range [low, high). It is invalid for low to be
 // greater than high.
 type Range [2]int64
@@ -408,8 +418,8 @@ func (r *ChunkReader) findRootNode() error {
 		return err
 	}
 	if _, err := io.ReadFull(r.readSeeker, r.currNode[:4]); err != nil {
-		r.err = err
-		return err
+		r.err = unexpectedEOF(err)
+		return r.err
 	}
 	if (r.currNode[0] != magic[0]) ||
 		(r.currNode[1] != magic[1]) ||
@@ -429,8 +439,8 @@ func (r *ChunkReader) findRootNode() error {
 		return err
 	}
 	if _, err := io.ReadFull(r.readSeeker, r.currNode[:1]); err != nil {
-		r.err = err
-		return err
+		r.err = unexpectedEOF(err)
+		return r.err
 	}
 	if found, err := r.tryRootNode(r.currNode[0], true); err != nil {
 		return err
@@ -484,8 +494,8 @@ func (r *ChunkReader) load(cOffset int64, arity uint8) error {
 		return err
 	}
 	if _, err := io.ReadFull(r.readSeeker, r.currNode[:size]); err != nil {
-		r.err = err
-		return err
+		r.err = unexpectedEOF(err)
+		return r.err
 	}
 	return nil
 }
@@ -503,8 +513,8 @@ func (r *ChunkReader) loadAndValidate(cOffset int64,
 		return err
 	}
 	if _, err := io.ReadFull(r.readSeeker, r.currNode[:4]); err != nil {
-		r.err = err
-		return err
+		r.err = unexpectedEOF(err)
+		return r.err
 	}
 	arity := r.currNode[3]
 	if arity == 0 {
